@@ -1798,12 +1798,31 @@ class CryptContext:
     #: secret used for dummy_verify()
     _dummy_secret = "too many secrets"
 
+    def _dummy_args(self):
+        """
+        dummy secret & context keywords which the default scheme accepts:
+        the secret is cut to the scheme's truncation limit (it may be refused otherwise,
+        if ``truncate_error`` is set), and schemes which require a user / realm get one.
+        """
+        handler = self.handler()
+        secret = self._dummy_secret
+        size = getattr(handler, "truncate_size", None)
+        if size:
+            secret = secret[:size]
+        kwds = {
+            key: "dummy"
+            for key in ("user", "realm")
+            if key in getattr(handler, "context_kwds", ())
+        }
+        return secret, kwds
+
     @memoized_property
     def _dummy_hash(self):
         """
         precalculated hash for dummy_verify() to use
         """
-        return self.hash(self._dummy_secret)
+        secret, kwds = self._dummy_args()
+        return self.hash(secret, **kwds)
 
     def _reset_dummy_verify(self):
         """
@@ -1821,7 +1840,8 @@ class CryptContext:
 
         .. versionadded:: 1.7
         """
-        self.verify(self._dummy_secret, self._dummy_hash)
+        secret, kwds = self._dummy_args()
+        self.verify(secret, self._dummy_hash, **kwds)
         return False
 
     def is_enabled(self, hash):
